@@ -131,6 +131,7 @@ class Interp:
         auto_inline: bool = True,
         fork_while: bool = False,
         concrete_while: bool = False,
+        named_containers: bool = False,
     ):
         self.mod = mod
         self.consts = dict(mod.consts)
@@ -153,6 +154,7 @@ class Interp:
         # refactoring extracted is analysed as if its body were still in place (same depth, same loop context)
         self.auto_inline = auto_inline
         self.fork_while = fork_while
+        self.named_containers = named_containers   # a local bound to a fresh empty container keeps its name as identity
         self.concrete_while = concrete_while   # a while loop whose test folds to a constant is executed iteration by iteration
         self.inline_stack: List[int] = []
         self.yield_hooks: List[Any] = []
@@ -595,6 +597,10 @@ class Interp:
                 self._block(st.finalbody)
 
     def _assign(self, t: ast.AST, v: Sym, st: ast.AST, quiet: bool = False) -> None:
+        if isinstance(t, ast.Name) and self.named_containers and self.depth == 0 and not self.inline_stack and (
+                v in (("dictd", ()), ("list", ()), ("set", ()), ("tuple", ())) or (v[0] == "call" and v[1] in (N("dict"), N("list"), N("set")) and not v[2] and not v[3])):
+            self.bind(t.id, N(t.id))
+            return
         if isinstance(t, ast.Name):
             self.bind(t.id, self._rewrite_value(v))
             return
@@ -984,8 +990,25 @@ class _EvalBuilder(_Builder):
             plist = params[1:]
         else:
             plist = params
-        if any(a[0] == "star" for a in pos) or any(k is None for k, _ in s[3]):
+        if any(k is None for k, _ in s[3]):
             return None
+        extra = pos[len(plist):]
+        pos = pos[:len(plist)]
+        if any(a[0] == "star" for a in pos):
+            return None
+        if extra:
+            if fn.args.vararg is None:
+                return None
+            if len(extra) == 1 and extra[0][0] == "star":
+                argmap[fn.args.vararg.arg] = extra[0][1]          # f(a, *rest): rest is handed on as it is
+            elif any(a[0] == "star" for a in extra):
+                return None
+            elif all(a[0] == "c" for a in extra):
+                argmap[fn.args.vararg.arg] = C(tuple(a[1] for a in extra))
+            else:
+                argmap[fn.args.vararg.arg] = ("tuple", tuple(extra))
+        elif fn.args.vararg is not None:
+            argmap[fn.args.vararg.arg] = C(())
         for p, a in zip(plist, pos):
             argmap[p] = a
         for k, v in s[3]:
@@ -1047,7 +1070,7 @@ class _EvalBuilder(_Builder):
         n_stmts = sum(1 for _ in ast.walk(fn) if isinstance(_, ast.stmt))
         if n_stmts > 40 or any(isinstance(x, (ast.Yield, ast.YieldFrom, ast.Await, ast.Try)) for x in ast.walk(fn)):
             return None
-        if fn.args.vararg or fn.args.kwarg:
+        if fn.args.kwarg:
             return None
         return (i.mod, fn)
 
